@@ -205,6 +205,9 @@ impl Prop for C16 {
 			"codecs are deterministic for a fixed input and level, so the baseline stream is well defined".into(),
 		]
 	}
+	fn expected_probes(&self) -> Vec<&'static str> {
+		vec!["fault_hard_error_fired", "fault_interrupted_fired", "fault_zero_accept_fired", "sink_partial_accepts", "sink_partial_accept_across_vectored_slices"]
+	}
 	fn budget(&self, tier: Tier) -> (u64, u64) {
 		match tier {
 			Tier::Quick => (3_000, 75),
